@@ -197,7 +197,7 @@ func resInstances(tier string) []Instance {
 					continue
 				}
 				bound := 1
-				if thorough(tier) {
+				if thorough(tier) || (buf == 0 && (e == "crash" || e == "send-fails" || e == "cancel-then-answer")) {
 					bound = 2
 				}
 				p := resParams{kind: kd.kind, nsw: kd.nsw, ending: e, rounds: 2, buf: buf}
